@@ -16,12 +16,12 @@ CHECKS = {
  'C07': ('model_checking',
          'TLA+ decode specification (Z80Asm!Text/Length, Z80!Decode timing); TLC judges the answers of every table-driven decoder for all 1792 opcode slots',
          'All 1792 opcode slots x operand bytes x Opcodes option sets x addresses are put to Disassembler, traceutils.disassemble, opcodes.decode and z80.get_timing; TLC compares length, text and timing set with the algorithmic decode of the specification; simulator PC/T deltas are judged against the same specification.',
-         'Operand bytes are sampled; slot space is complete. Instructions wrapping past 65535 are not yet in the generator.',
+         'Operand bytes are sampled; slot space is complete; every slot is also placed so that its last byte is address 65535. Instructions that continue past 65535 into address 0 are not in the generator.',
          'DESIGN.md §4 C07'),
  'C06': ('model_checking',
          'TLA+ machine specification (Z80!StepInt); TLC validates lock-step traces of both implementation pairs recorded through trace.py\'s own loops, step by step',
          'Generated programs run one instruction at a time on Simulator+CSimulator and CMIOSimulator+CCMIOSimulator via the real trace loops (Python loop / CSimulator.trace) with interrupts; TLC replays each trace against Z80!StepInt (instruction + frame interrupt) and requires bit-identical registers, memory diffs and port logs inside each pair; one-call vs per-instruction execution of the loop must coincide.',
-         'Programs are sampled (random + structured + 0xFFFF/frame-boundary edge programs); contended pair timing is not predicted here (C19); memory/port-log equality inside a pair is computed by the harness and passed to TLC as a flag; 128K lock-step not yet included.',
+         'Programs are sampled (random + structured + 0xFFFF/frame-boundary edge programs; 128K programs with 0x7FFD histories judged by Machine128 = Z80 step + paging latch over physical pages); contended pair timing is not predicted here (C19); memory/port-log equality inside a pair is computed by the harness and passed to TLC as a flag; 128K runs that page bank 2/5 in at 0xC000 are judged for pair agreement, latch, ranges and ROM immutability only.',
          'DESIGN.md §4 C06'),
  'C08': ('model_checking',
          'TLA+ Paging128 specification model-checked (lock, ROM, one-bank-per-write as invariants/action properties) + every recorded paging step of the real simulators validated as a Paging128 action by TLC',
@@ -31,7 +31,7 @@ CHECKS = {
  'C19': ('model_checking',
          'TLA+ ULA/bus-cycle specification (Z80Bus: Delay48/128, per-instruction machine cycles, I/O patterns); TLC judges recorded single steps of the contended simulators at chosen frame positions',
          'Every opcode slot is executed on the plain Python simulator and both contended simulators with PC, pointer, stack, IR and port addresses placed in contended / uncontended / ROM memory at frame positions covering all phases around both ends of the contended window; TLC computes the instruction\'s machine-cycle list and the documented wait pattern and requires dT = uncontended timing + delay, never faster than plain, and register/flag/memory/port effects equal to the plain simulator (MEMPTR-derived bits aside).',
-         'Frame positions and placements are sampled per slot plus a deterministic sweep at both edges of the contention window; 48K layout only so far (128K frame layout and odd-bank contention are specified in Z80Bus but not yet driven); the OTIR/OTDR internal-cycle address is accepted in both readings (DontCare OtirInternalBC).',
+         'Frame positions and placements are sampled per slot plus a deterministic sweep at both edges of the contention window, on the 48K layout and on the 128K layout with odd and even banks at 0xC000 (paging locked during the step); both wait-state tables are enumerated for every frame position (Python lists and delays observed on the Python and C simulators); the OTIR/OTDR internal-cycle address is accepted in both readings (DontCare OtirInternalBC).',
          'DESIGN.md §4 C19'),
  'C01': ('model_checking',
          'TLA+ Tiling specification (model-checked) + TLC judging of recorded sna2skool -> skool2bin pipelines against the original memory image',
@@ -83,6 +83,11 @@ CHECKS = {
          'Random term trees (macro nesting <= 4: #EVAL #N #IF #MAP #FOR #FOREACH #WHILE #LET #FORMAT #DEF #PEEK #POKES #PUSHS #POPS #CHR #STR #SPACE #PC, all arithmetic operators) preceded by state-changing preambles, rendered in randomly chosen documented concrete syntaxes (bare/parenthesised/keyword integers, every delimiter family, pre-expansion, hex/decimal, whitespace), planted in title, description, register, mid-block, instruction and end comments x 9 base/case option sets; ASM = HTML = every place = model.',
          'html.unescape is trusted; inputs stay in the documented domain (no division by zero, no negative shifts, integer-only format fields); operand values within +-2^20 because TLC integers are 32-bit; image/link macros are C15/C16.',
          'DESIGN.md §4 C17'),
+ 'C13': ('model_checking',
+         'TLA+ TapePlayer specification (tape deck: edges, EAR level, pause/next block, announce; accelerators as closed forms over Z80!Step) with the deck model-checked; TLC decides with the executable Z80 step spec that every ACCELERATORS entry and both DEC A closed forms refine plain execution, validates recorded LoadTracer / CSimulator.load port-read scenarios against the plain spec run, and judges tap2sna snapshots across the speed-up configuration matrix',
+         'Refinement obligations enumerated by TLC over all 53 accelerator table entries x counter values (16 quick / all 256 thorough) x iteration counts and edge phases, DEC A: JR/JP x carry x A; real _read_port / CSimulator.load scenarios (near/limit/level/late/iff/block-end) compared with k plain spec steps on all registers incl. R and T, memory and player state; real tap2sna.main on bin2tap tapes (tap/pzx, 48K/128K) and custom-loader TZX tapes (relocated LD-BYTES with altered timing constants, turbo and headerless blocks, one per usable loop shape) under accelerator x accelerate-dec-a x pause x fast-load x cmio x python x polarity x first-edge (pairwise in quick, full product on small tapes in thorough): bit-identical inside the speed-up group, data bytes/PC/SP across fast-load and cmio.',
+         'End to end is a sampled tape x configuration matrix; T is read through a wrapper around tap2sna.get_state (tap2sna writes a default T into the file); RAM compared as CRC-32 per 256-byte page; loads always pass --start (the PC reached is only defined with a stop address); pulses shorter than one sampling-loop period and zero-gap blocks are open known findings and excluded from the random generators.',
+         'DESIGN.md §4 C13'),
 }
 
 PENDING = {}
